@@ -1,14 +1,20 @@
 """C09 - Lie-group helpers (evo/core/lie_algebra.py) against the Coq model Evo.Lie (F_ops, tolerance regime)."""
 import math
+import os
 
 import numpy as np
 
+from harness import common, pyast_np
 from harness.common import cf, cflist, close, differential, hexf, unhex
 
 ID = "C09"
 IMPORTS = "From Evo Require Import Num Linalg Lie.\n"
-COQ_TARGETS = ["theories/LieProofs.vo"]
-TRUSTED = ["model Evo.Lie written by hand from evo/core/lie_algebra.py; tie = differential run in binary64 with tolerances",
+COQ_TARGETS = ["theories/LieProofs.vo", "theories/LieTie.vo"]
+TRUSTED = ["model Evo.Lie written by hand from evo/core/lie_algebra.py; ties: (T) harness/pyast_np.py re-translates hat, vee, se3, sim3, "
+           "so3_from_se3, se3_inverse, sim3_scale, sim3_inverse, is_so3, relative_so3, relative_se3 from the current source into "
+           "EvoGen.LieGen on every run and Evo.LieTie proves each translated function equal to the model's for EVERY NumOps instance "
+           "(reals and binary64 alike); the translator's reading of the np.ndarray annotations (3-vector / 3x3 / 4x4 pose with bottom "
+           "row (0,0,0,1)) is trusted; (H) differential run in binary64 with tolerances",
            "oracles (spec measured on every case, not verified): scipy Rotation.from_rotvec/as_matrix/from_matrix/as_rotvec "
            "(measured against Rodrigues' formula and its inverse relation), np.linalg.det, np.power(.,1/3), BLAS dot order",
            "real-vs-binary64 gap: theorems are over R; float agreement is measured (rtol 1e-9 w.r.t. the input scale)"]
@@ -429,7 +435,32 @@ def nontrivial(case, val, out):
     return True
 
 
+GEN_PATH = os.path.join(common.COQ, "generated", "LieGen.v")
+
+
+def regenerate(ctx):
+    """translator tie: coq/generated/LieGen.v from the repository under test (fail-closed)"""
+    try:
+        text, lits = pyast_np.translate_lie(common.REPO)
+        if lits != {"lit_1em06": 1e-06}:
+            raise pyast_np.Unsupported("float literals %r (the tie theorems instantiate atol = 1e-06 only)" % lits)
+        if pyast_np.write_if_changed(GEN_PATH, text):
+            ctx.notes.append("coq/generated/LieGen.v regenerated from %s (content changed)" % common.REPO)
+        return []
+    except (pyast_np.Unsupported, OSError, SyntaxError, KeyError, IndexError, AttributeError, TypeError) as e:
+        pyast_np.write_if_changed(GEN_PATH, pyast_np.lie_stub())
+        return [{"kind": "obligation", "failing_input": False, "theorem": "Evo.LieTie.lie_gen_is_model (translator tie)",
+                 "correspondence": "pyast_np: evo/core/lie_algebra.py",
+                 "detail": "translation of the repository under test failed (fail-closed): %s: %s" % (type(e).__name__, e),
+                 "case": None, "model_output": None, "impl_output": None}]
+
+
 def run(ctx, replay=None, proofs_ok=True):
+    if not proofs_ok:   # the case files only need the executable model
+        common.build_theories(targets=["theories/Lie.vo"])
+    if replay is not None and not replay.get("case"):
+        return {"failures": [], "coverage": {"evaluations": 0, "distinct_nontrivial": 0, "rule": "replay of an obligation "
+                "(no input case): the theorems were re-checked by the driver", "samples": []}}
     cases = [replay["case"]] if replay is not None else gen(ctx)
     failures, stats = differential(ctx, cases, imports=IMPORTS, impl=impl, expr=expr, judge=judge,
                                    nontrivial=nontrivial, per_file=120)
@@ -457,4 +488,4 @@ LEVEL_TEXT = ("Coq theorems over R for the model of lie_algebra.py: hat/vee inve
               "(partial, sampled). Tie: differential run of every helper against the model in binary64.")
 LEVEL_NOTE = ("Trusted: Coq kernel/VM, Reals axioms + classic, hand-written model (tested correspondence), scipy/numpy kernels as "
               "oracles whose specs are measured per case; no floating-point error analysis (tolerances).")
-TECHNIQUE = "Coq proof (ring/field/nsatz identities on 3x3 records, Reals trig) + model/implementation correspondence by vm_compute"
+TECHNIQUE = "Coq proof (ring/field/nsatz identities on 3x3 records, Reals trig) + Python-AST translator of lie_algebra.py with translated = model proved for every number system + model/implementation correspondence by vm_compute"
